@@ -20,7 +20,8 @@ OPS = ["eval", "set_conv", "set_const", "set_init_float", "set_init_const", "set
 class World(object):
     """definitions are tracked by the harness; `build` replays them on a fresh Model"""
 
-    def __init__(self, mode, env=None):
+    def __init__(self, mode, env=None, entry="evaluate"):
+        self.entry = entry           # how elements are evaluated before the edits: the memo must not care
         self.mode, self.env, self.n = mode, env or {}, 0
         self.defs = {"k": self.lit("k0"), "c": self.lit("c0"), "init": self.lit("i0"),
                      "g": ("k*2+c",), "f": ("g",), "S_init": ("const",), "S_eq": ("f",)}
@@ -67,7 +68,7 @@ class World(object):
         self.n += 1
         tag = "e%d" % self.n
         if op == "eval":
-            m.evaluate_equation(ELS[arg % len(ELS)], TS[-1])
+            self.value(m, ELS[arg % len(ELS)], TS[-1], self.entry)
         elif op == "set_conv":
             self.defs["g"] = ("k*lit+c*c", self.lit(tag))
             self._set_g(m, self.defs["g"])
@@ -89,9 +90,22 @@ class World(object):
         elif op == "run_twice":
             pass
 
-    def observe(self, m=None):
+    KIND = {"k": "constant", "c": "constant", "init": "constant", "g": "converter", "f": "flow", "S": "stock", "total": "converter"}
+
+    def value(self, m, e, t, entry):
+        """the entry points through which a model is evaluated"""
+        if entry == "evaluate":
+            return m.evaluate_equation(e, t)
+        if entry == "memoize":
+            return m.memoize(e, t)
+        el = getattr(m, self.KIND[e])(e)
+        if entry == "call":
+            return el(t)
+        return el.plot(starttime=TS[0], stoptime=t, dt=1.0, return_df=True)[e][t]          # entry == "plot"
+
+    def observe(self, m=None, entry="evaluate"):
         m = m or self.m
-        return {e: {t: m.evaluate_equation(e, t) for t in TS} for e in ELS}
+        return {e: {t: self.value(m, e, t, entry) for t in TS} for e in ELS}
 
 
 def _default(n):
@@ -112,10 +126,13 @@ def histories(tier):
     return out
 
 
-def run_history(hist, mode, env=None):
-    w = World(mode, env)
+ENTRIES = ["evaluate", "call", "memoize", "plot"]
+
+
+def run_history(hist, mode, env=None, entry="evaluate"):
+    w = World(mode, env, entry)
     out = []
-    w.observe()                                   # populate the memo before the first edit
+    w.observe(entry=entry)                        # populate the memo before the first edit, through the chosen entry point
     for i, (op, arg) in enumerate(hist):
         w.apply(op, arg)
         got = w.observe()
@@ -146,10 +163,10 @@ def compare(got, again, want, pc, timeout_s, numeric=False):
     return None
 
 
-def check_history(hist, timeout_s):
+def check_history(hist, timeout_s, entry="evaluate"):
     def run():
         try:
-            return ("ok", run_history(hist, "sym"))
+            return ("ok", run_history(hist, "sym", None, entry))
         except Exception as e:
             import traceback
             return ("exc", e, traceback.format_exc()[-500:])
@@ -271,7 +288,7 @@ def replay(case):
     hist = [tuple(x) for x in case["hist"]]
     for env in (case.get("env", {}), {}, {"k0": 4.5, "c0": 0.25, "i0": 7.0, "e1": 3.0, "e2": 8.0, "e3": 0.5}):
         try:
-            res = run_history(hist, "float", env)
+            res = run_history(hist, "float", env, case.get("entry", "evaluate"))
         except Exception as e:
             return True, "history %s raised %r" % (hist, e)
         for (i, got, again, want) in res:
@@ -303,8 +320,8 @@ def canary_equation_setter_keeps_cache():
 _G = {}
 
 
-def _task(h):
-    return check_history(h, _G["timeout"])
+def _task(t):
+    return check_history(t[1], _G["timeout"], t[0])
 
 
 def run(tier):
@@ -325,11 +342,14 @@ def run(tier):
     counts = {"holds": 0, "violated": 0, "unknown": 0}
     samples, bad = [], []
     try:
-        results = harness.pmap(_task, hs, chunksize=8)
-        for h, (r, err) in zip(hs, results):
+        tasks = [(en, h) for en in ENTRIES for h in hs if en == "evaluate" or len(h) <= 2 or tier == "thorough"]
+        results = harness.pmap(_task, tasks, chunksize=8)
+        for (en, h), (r, err) in zip(tasks, results):
             st, info = ("unknown", err) if err else r
             counts[st] += 1
             if st == "violated":
+                info = dict(info)
+                info["_entry"] = en
                 bad.append((h, info))
             elif st == "unknown":
                 rep.inconcl("history %s: %s" % (h, info))
@@ -342,12 +362,13 @@ def run(tier):
     seen = set()
     for h, info in sorted(bad, key=lambda x: len(x[0])):
         i = info.get("_after", -1)
-        sig = "stale:%s" % (h[i][0] if i >= 0 else "raised")
+        sig = "stale:%s" % (h[i][0] if i >= 0 else "raised") + ("" if info.get("_entry", "evaluate") == "evaluate" else ":after-" + info["_entry"])
         if sig in seen:
             continue
         seen.add(sig)
         env = {k: float(v) for k, v in info.items() if isinstance(v, (Fraction, int, float)) and not isinstance(v, bool)}
-        rep.candidate(sig, {"hist": [list(x) for x in h], "env": env}, "history %s after op %s: %s" % (h, i, info.get("_what")))
+        rep.candidate(sig, {"hist": [list(x) for x in h], "env": env, "entry": info.get("_entry", "evaluate")},
+                      "history %s (memo filled through %s) after op %s: %s" % (h, info.get("_entry", "evaluate"), i, info.get("_what")))
     seen_b = set()
     for sub, spec, what in bad_b:
         sig = "ambiguous:sequential" + ("" if spec == B_SPECS[0] else ":dt=%g" % spec[1])
@@ -358,7 +379,7 @@ def run(tier):
     # part C
     from checks import c08_sched
     sched = c08_sched.run_part(rep, tier)
-    rep.assume("part A: 7-element model (3 constants, converter, flow, stock, sum); every edit writes a fresh symbol; histories exhaustive to length 2 (+ eval-first length 3)",
+    rep.assume("part A: 7-element model (3 constants, converter, flow, stock, sum); every edit writes a fresh symbol; histories exhaustive to length 2 (+ eval-first length 3); the memo is filled before the edits through each of 4 entry points (evaluate_equation, element(t), memoize, Element.plot)",
                "part B: random.* replaced by a fresh-symbol stub; worker threads joined one by one (deterministic thread stub); run specs %s" % (B_SPECS,),
                "part C: 2 threads, source-line granularity, schedule length bound; see evidence.sched")
     rep.coverage.update({"states": len(hs) + nb + sched.get("states", 0), "transitions": max(1, counts["holds"] + nb - len(bad_b) + sched.get("transitions", 0)),
